@@ -1,6 +1,8 @@
 """shared plan / confirm / validate for the episode-based properties C01, C02, C03"""
 from __future__ import annotations
 
+import json
+
 from .. import confirm as CF
 from .. import envs as EV
 
@@ -114,7 +116,7 @@ def confirm_witness(rp, resp):
     for t in range(resp["steps"]):
         for b in range(B):
             if not resp["masks"][t][b][rp["actions"][t][b]]:
-                return False, f"witness action not admitted by the real mask at step {t}: {rp['actions']}"
+                return False, f"{rp.get('spec')}[{rp.get('variant')}] n={rp.get('n')}: witness action not admitted by the real mask at step {t}: {rp['actions']}; instance {json.dumps(rp.get('td'))[:400]}"
     if resp["steps"] != len(rp["actions"]) or not all(resp["done"][resp["steps"]]):
         return False, f"witness finishes at a different step in the real env (steps={resp['steps']}, planned={len(rp['actions'])})"
     return True, "ok"
